@@ -570,6 +570,29 @@ def _word(w):
         return w
 
 
+def _literal_kind(v):
+    """'i' for an integer literal (or a term of integer sort), 'f' for a literal with a decimal point / exponent (or a term of
+    real sort), 's' for anything that is not a number"""
+    if isinstance(v, bool):
+        return 's'
+    if isinstance(v, int):
+        return 'i'
+    if isinstance(v, float):
+        return 'f'
+    if sym.isz(v):
+        return 'i' if z3.is_int(v) else 'f'
+    return 's'
+
+
+INTEGER_TYPES = ('bit', 'unsigned_char', 'char', 'unsigned_short', 'short', 'unsigned_int', 'int', 'unsigned_long', 'long')
+
+
+def _kind_ok(declared, kinds):
+    """a type-honouring reader: an array declared with an integer type holds integer literals only; float/double arrays hold
+    numbers (an integer literal is a valid float)"""
+    return kinds <= ({'i'} if declared in INTEGER_TYPES else {'i', 'f'})
+
+
 def _is_intlike(v):
     return (isinstance(v, int) and not isinstance(v, bool)) or sym.isz(v)
 
@@ -586,14 +609,15 @@ def read_legacy_vtk(text):
         if not words:
             continue
         if words[0] in KEYWORDS:
-            secs.append(dict(kw=words[0], args=[_word(w) for w in words[1:]], chunks=[]))
+            secs.append(dict(kw=words[0], args=[_word(w) for w in words[1:]], chunks=[], kinds=set()))
             continue
         if not secs:
-            secs.append(dict(kw='<data before any section>', args=[], chunks=[]))
+            secs.append(dict(kw='<data before any section>', args=[], chunks=[], kinds=set()))
         vals = [_word(w) for w in words]
         if len(vals) == 1 and isinstance(vals[0], ShapeArr):        # symbolic run only: a whole table
             A = vals[0]
             symcols = _isym(A.shape[1]) or A.cols is None
+            secs[-1]['kinds'].add({'i': 'i', 'u': 'i', 'b': 'i', 'f': 'f'}.get(A.dtype.kind, A.dtype.kind))
             secs[-1]['chunks'].append(dict(rows=px.unwrap(A.shape[0]), cols=px.unwrap(A.shape[1]) if _isym(A.shape[1]) else int(A.shape[1]),
                                            lead=None if symcols else A.cols[0]['fill'],
                                            his=[None] if symcols else [px.unwrap(c['hi']) for c in A.cols[1:]], ids=None, table=True))
@@ -601,6 +625,7 @@ def read_legacy_vtk(text):
         if any(isinstance(v, ShapeArr) for v in vals):
             raise Unsupported('table token inside a text row')
         secs[-1].setdefault('lines', []).append(vals)
+        secs[-1]['kinds'].update(_literal_kind(v) for v in vals)
         lead = vals[0] if _is_intlike(vals[0]) else None
         ch = secs[-1]['chunks']
         if ch and not ch[-1].get('table') and ch[-1]['cols'] == len(vals) and not sym.isz(lead) and not sym.isz(ch[-1]['lead']) and ch[-1]['lead'] == lead:
@@ -718,6 +743,8 @@ def file_goals(ex, text, expect, tag=''):
               info='%s %s: %s rows written, %d row(s) per record, %sS %s' % (kind, name, _show(_rows(data)), ROWS_PER_RECORD[kind], what.upper(), _show(n)))
             G('%s_array_rows_have_the_kind_width' % what, Eq([c['cols'] for c in data['chunks']], [ARRAY_KW[kind]] * len(data['chunks'])),
               info='%s %s: rows of %s numbers' % (kind, name, [_show(c['cols']) for c in data['chunks']]))
+            G('array_rows_have_the_declared_data_type_kind', Holds(_kind_ok(dt, data['kinds'])),
+              info='%s array %s %s declared %r holds literals of kind %s (i = integer, f = floating point)' % (what, kind, name, dt, sorted(data['kinds'])))
     return header, secs
 
 
@@ -726,7 +753,7 @@ def _signature(secs):
     integers, the number of rows and the number of values written (independent of the run-length encoding)"""
     struct, nums = [], []
     for s in secs:
-        struct.append((s['kw'], tuple(a if isinstance(a, str) else '#' for a in s['args']), tuple(sorted({_show(c['cols']) for c in s['chunks']}))))
+        struct.append((s['kw'], tuple(a if isinstance(a, str) else '#' for a in s['args']), tuple(sorted({_show(c['cols']) for c in s['chunks']})), tuple(sorted(s['kinds']))))
         nums += [a for a in s['args'] if not isinstance(a, str)]
         nums += [_rows(s), _nvals(s)]
     return struct, nums
@@ -991,7 +1018,7 @@ GOALS = ['header_lines', 'sections_in_legacy_order', 'points_declared_eq_rows_wr
          'cell_data_section_iff_cell_arrays_expected', 'data_arrays_are_the_accepted_fields_in_order',
          'point_data_declared_eq_points_declared', 'cell_data_declared_eq_cells_declared', 'point_array_records_eq_points_declared',
          'sphere_radius_records_eq_points_declared', 'cell_array_records_eq_cells_declared', 'point_array_rows_have_the_kind_width',
-         'cell_array_rows_have_the_kind_width', 'repeated_write_same_sections', 'repeated_write_same_counts', 'write_leaves_registered_fields_unchanged',
+         'cell_array_rows_have_the_kind_width', 'array_rows_have_the_declared_data_type_kind', 'repeated_write_same_sections', 'repeated_write_same_counts', 'write_leaves_registered_fields_unchanged',
          'file_opened_for_write_and_closed', DEFINED]
 
 
